@@ -126,7 +126,7 @@ def warm():
     others = ["fx/modern_ms/headings.docx", "fx/modern_ms/mwe.xlsx", "fx/mails/basic_email.eml", "fx/archives/test_archive.7z",
               "fx/archives/sample.zip", "fx/html/sample.html", "fx/open_office/sample_document.odt", "fx/epub/sample.epub",
               "fx/legacy_ms/mwe.xls", "gen/a.tar.gz", "gen/a.rtf", "fx/modern_ms/pptx_table.pptx", "gen/att.eml",
-              "gen/a.html", "gen/b.html", "gen/c.html", "fx/html/large_complex.html", "gen/a.mhtml", "gen/ragged.xlsx", "gen/a.docx",
+              "gen/a.html", "gen/b.html", "gen/c.html", "gen/deeper.html", "gen/hebrew.html", "fx/html/large_complex.html", "fx/modern_ms/thesis-template.docx", "gen/a.mhtml", "gen/ragged.xlsx", "gen/a.docx",
               "var/macosx.zip", "var/plain.zip", "var/macosx.tar", "var/corrupt36.7z", "var/corrupt40.7z", "var/corrupt60.7z"]
     others += [n for n in docs if n.startswith("var/corrupt") and n not in others]
     _pool = _pdfs + [o for o in others if o in docs]
@@ -307,6 +307,11 @@ def _env_state():
         "fds": sorted(os.listdir("/proc/self/fd")).__len__(),
         "threads": sorted(t.name for t in threading.enumerate() if not t.name.startswith("sim-task-")),
         "tempdir": tempfile.tempdir,
+        "recursionlimit": sys.getrecursionlimit(),
+        "mimetypes": hashlib.sha1(repr(sorted(__import__("mimetypes")._db.types_map[1].items()) if __import__("mimetypes")._db else None).encode()).hexdigest()[:10],
+        "decimal_prec": __import__("decimal").getcontext().prec,
+        "csv_field_size_limit": __import__("csv").field_size_limit(),
+        "socket_default_timeout": __import__("socket").getdefaulttimeout(),
     }
 
 
